@@ -80,9 +80,7 @@ Definition raises_table (ft : string) : list string :=
   else if String.eqb ft "html" then ["xml.etree.ElementTree.ParseError"]
   else if String.eqb ft "plist" then
     ["xml.parsers.expat.ExpatError"; "plistlib.InvalidFileException"; "builtins.ValueError";
-     "builtins.IndexError"; "builtins.KeyError"; "builtins.LookupError"; "builtins.TypeError";
-     "builtins.AttributeError"; "builtins.UnicodeDecodeError"; "builtins.OverflowError";
-     "binascii.Error"]
+     "builtins.IndexError"; "builtins.LookupError"]
   else [].
 
 Definition in_raises (c : c20_case) : bool :=
